@@ -9,12 +9,14 @@ import (
 	"encoding/hex"
 	"encoding/json"
 	"errors"
+	"fmt"
 	"math/rand/v2"
 	"net"
 	"net/http"
 	"net/http/httptest"
 	"net/netip"
 	"net/url"
+	"slices"
 	"strings"
 	"testing"
 
@@ -463,7 +465,107 @@ var c03HostRules = []string{
 	"version.bind", "id.server", "hostname.bind", "version.bind", "Hostname.Bind",
 }
 
+// Blocked-hosts entries in /etc/hosts syntax: an IPv4 or IPv6 address (any of
+// the universe, zoned and IPv4-mapped included) followed by one to three
+// names, separated by blanks or tabs, with or without a trailing comment.
+// urlfilter files such a line under DNSResult.HostRulesV4 or HostRulesV6 (not
+// NetworkRule); the line blocks exactly the names it lists, for every type.
+var c03HostsNames = []string{
+	"hostsfile.example", "v6sink.example", "tracker.example", "telemetry.example", "Tab.Example",
+	"blocked.example", "exception.example", "x.tld", "sink.wild.example", "id.server",
+}
+
+func c03GenHostsLine(r *rand.Rand) string {
+	var addr string
+	switch r.IntN(8) {
+	case 0:
+		addr = "::"
+	case 1:
+		addr = "::1"
+	case 2:
+		addr = "0.0.0.0"
+	case 3:
+		addr = vutil.Pick(r, c03V4)
+	default:
+		addr = vutil.Pick(r, c03V6)
+	}
+	seps := []string{" ", " ", "\t", "   ", " \t"}
+	b := &strings.Builder{}
+	if r.IntN(12) == 0 {
+		b.WriteString("# ") // the whole line is a comment: it blocks nothing
+	}
+	b.WriteString(addr)
+	for k := []int{1, 1, 1, 2, 2, 3}[r.IntN(6)]; k > 0; k-- {
+		b.WriteString(vutil.Pick(r, seps))
+		b.WriteString(vutil.Pick(r, c03HostsNames))
+	}
+	switch r.IntN(8) {
+	case 0:
+		b.WriteString(" # sinkhole")
+	case 1:
+		b.WriteString(" #" + vutil.Pick(r, c03HostsNames)) // a name inside the comment is not listed
+	}
+
+	return b.String()
+}
+
+// c03GenHostRule draws one blocked-hosts entry: a rule shape of the fixed pool
+// or (3/10) a generated hosts-syntax line.
+func c03GenHostRule(r *rand.Rand) string {
+	if r.IntN(10) < 3 {
+		return c03GenHostsLine(r)
+	}
+
+	return vutil.Pick(r, c03HostRules)
+}
+
+// c03HostsLine is the harness's own reading of one blocked-hosts entry as a
+// hosts-syntax line (comment cut at '#', first field an IP address, the other
+// fields its names); ok is false for every other kind of entry.
+func c03HostsLine(line string) (names []string, ok bool) {
+	if k := strings.IndexByte(line, '#'); k >= 0 {
+		line = line[:k]
+	}
+	f := strings.Fields(strings.ToLower(line))
+	if len(f) < 2 {
+		return nil, false
+	} else if _, err := netip.ParseAddr(f[0]); err != nil {
+		return nil, false
+	}
+
+	return f[1:], true
+}
+
+// c03CheckOracle cross-checks the oracle engine on hosts-syntax entries with
+// c03HostsLine: a name listed by such a line must be reported as blocked, and
+// when the list holds nothing but hosts-syntax lines and comments no other
+// name may be.  A failure is a defect of the harness's trusted base (what it
+// assumes of urlfilter), not of the code under test, hence a panic.
+func c03CheckOracle(hosts []string, o c03Oracle, qname string, qt uint16) {
+	host := qname
+	if host != "." {
+		host = strings.ToLower(strings.TrimSuffix(host, "."))
+	}
+	listed, only := false, true
+	for _, h := range hosts {
+		names, ok := c03HostsLine(h)
+		switch {
+		case ok:
+			listed = listed || slices.Contains(names, host)
+		case strings.HasPrefix(strings.TrimSpace(h), "#"), strings.HasPrefix(h, "!"):
+			// comment
+		default:
+			only = false
+		}
+	}
+	if got := o.blocked(qname, qt); (listed && !got) || (only && !listed && got) {
+		panic(fmt.Sprintf("c03: oracle says blocked=%v for %q type %d on hosts-syntax list %q", got, qname, qt, hosts))
+	}
+}
+
 var c03QNames = []string{
+	"v6sink.example.", "V6Sink.Example.", "tracker.example.", "telemetry.example", "tab.example.", "x.tracker.example.",
+	"sink.wild.example.", "sinkhole.",
 	"blocked.example.", "Blocked.Example.", "x.blocked.example.", "x.wild.example.", "wild.example.",
 	"sub.example.", "a.sub.example.", "notsub.example.", "other.org.", ".", "upper.example.", "UPPER.EXAMPLE.",
 	"hostsfile.example.", "exception.example.", "x.tld.", "regex42.example.", "party.example.", "a.b.c.example.",
@@ -514,7 +616,7 @@ func c03Gen(r *rand.Rand, emit vutil.Emit) {
 			nPhases += 1 + r.IntN(2)
 		}
 		live := false
-		var curAllowed, curBlocked []string
+		var curAllowed, curBlocked, curHosts []string
 		var oracle c03Oracle
 		for phase := 0; phase < nPhases; phase++ {
 			badA, badB := r.IntN(25) == 0, r.IntN(25) == 0
@@ -530,7 +632,7 @@ func c03Gen(r *rand.Rand, emit vutil.Emit) {
 			}
 			var hosts []string
 			for k := r.IntN(4); k > 0; k-- {
-				hosts = append(hosts, vutil.Pick(r, c03HostRules))
+				hosts = append(hosts, c03GenHostRule(r))
 			}
 			if phase > 0 && r.IntN(3) > 0 {
 				allowed, blocked, hosts = c03Dedup(allowed, nil), c03Dedup(blocked, allowed), c03Dedup(hosts, nil)
@@ -562,10 +664,10 @@ func c03Gen(r *rand.Rand, emit vutil.Emit) {
 				// (a prediction that only steers which lists the requests aim at and
 				// which engine answers the oracle bit; a wrong one shows as a
 				// disagreement on the set line itself)
-				live, curAllowed, curBlocked, oracle = true, allowed, blocked, cand
+				live, curAllowed, curBlocked, curHosts, oracle = true, allowed, blocked, hosts, cand
 			}
 			if !live {
-				oracle = c03NewOracle(nil)
+				curHosts, oracle = nil, c03NewOracle(nil)
 			}
 
 			// ---- requests against it: addresses and ids drawn mostly from the lists
@@ -681,6 +783,8 @@ func c03Gen(r *rand.Rand, emit vutil.Emit) {
 				case 1:
 					nQuestions = 2
 				}
+
+				c03CheckOracle(curHosts, oracle, qname, qtype)
 
 				kind, addrHex, zone := "0", "-", "-"
 				if ip.IsValid() {
